@@ -102,6 +102,85 @@ func step(w []string, _ string) string {
 			return strconv.Itoa(trie.Count())
 		case "dump":
 			return dump(trie)
+		case "concshare":
+			// concurrent lookups over share groups on a static trie: every single answer must be
+			// "direct receivers plus exactly one member of every matching group" (the per-lookup
+			// scratch state must not be shared between concurrent callers)
+			per, _ := strconv.Atoi(w[1])
+			t := newTrie()
+			const share = 1480642916
+			mk := func(id string) *sub { return subOf2(id) }
+			t.Subscribe(message.Ssid{1, 11}, mk("d1"))
+			t.Subscribe(message.Ssid{1, 12}, mk("d2"))
+			for i := 0; i < 3; i++ {
+				t.Subscribe(message.Ssid{1, share, 21, 11}, mk(fmt.Sprintf("a%d", i))) // group 21 on channel 11
+				t.Subscribe(message.Ssid{1, share, 22, 12}, mk(fmt.Sprintf("b%d", i))) // group 22 on channel 12
+			}
+			t.Subscribe(message.Ssid{1, share, 23, 11}, mk("c0")) // group 23 on channel 11
+			check := func(ch uint32, got message.Subscribers) string {
+				a, b, c := 0, 0, 0
+				direct := false
+				for _, s := range got {
+					id := s.ID()
+					switch id[0] {
+					case 'a':
+						a++
+					case 'b':
+						b++
+					case 'c':
+						c++
+					case 'd':
+						if (ch == 11 && id == "d1") || (ch == 12 && id == "d2") {
+							direct = true
+						} else {
+							return "foreign-direct:" + id
+						}
+					}
+				}
+				if !direct {
+					return "direct-missing"
+				}
+				if ch == 11 && (a != 1 || c != 1 || b != 0) {
+					return fmt.Sprintf("channel11:a=%d,b=%d,c=%d", a, b, c)
+				}
+				if ch == 12 && (b != 1 || a != 0 || c != 0) {
+					return fmt.Sprintf("channel12:a=%d,b=%d,c=%d", a, b, c)
+				}
+				return ""
+			}
+			bad := make(chan string, 64)
+			var wg sync.WaitGroup
+			for g := 0; g < 8; g++ {
+				wg.Add(1)
+				go func(g int) {
+					defer wg.Done()
+					defer func() {
+						if r := recover(); r != nil {
+							select {
+							case bad <- fmt.Sprint("panic:", r):
+							default:
+							}
+						}
+					}()
+					for i := 0; i < per; i++ {
+						ch := uint32(11 + (g+i)%2)
+						if msg := check(ch, t.Lookup(message.Ssid{1, ch}, nil)); msg != "" {
+							select {
+							case bad <- msg:
+							default:
+							}
+							return
+						}
+					}
+				}(g)
+			}
+			wg.Wait()
+			select {
+			case m := <-bad:
+				return "invalid:" + m
+			default:
+				return "valid"
+			}
 		case "conc":
 			// 8 goroutines; every (path, id) pair is owned by exactly one goroutine, so the final
 			// state does not depend on the interleaving; lookups run concurrently
